@@ -367,6 +367,7 @@ func c17Unanchored(pat string, mode pattern.Mode, anchored *regexp.Regexp, subje
 func c17Class(p string, mode pattern.Mode, all []string, sh, bash []bool) string {
 	rs := []rune(p)
 	unclosedExt, bracketInGroup, emptyGroup := false, false, false
+	bracketSwallowsParen, plainParenInGroup, starThenEmptyAlt := false, false, false
 	for i := 0; i < len(rs); i++ {
 		if rs[i] == '\\' {
 			i++
@@ -377,21 +378,54 @@ func c17Class(p string, mode pattern.Mode, all []string, sh, bash []bool) string
 			if j < len(rs) && rs[j] == ')' {
 				emptyGroup = true
 			}
+			var brackets []int // positions of "[" inside the group
+			altStart := j      // start of the current top-level alternative
+			emptyAlt := false  // some top-level alternative is empty or only "*"
+			endAlt := func(end int) {
+				if alt := string(rs[altStart:end]); alt == "" || strings.Trim(alt, "*") == "" {
+					emptyAlt = true
+				}
+			}
 			for j < len(rs) && depth > 0 {
 				switch rs[j] {
 				case '\\':
 					j++
 				case '(':
 					depth++
+					if !strings.ContainsRune("!?*+@", rs[j-1]) {
+						plainParenInGroup = true
+					}
 				case ')':
 					depth--
+					if depth == 0 {
+						endAlt(j)
+					}
+				case '|':
+					if depth == 1 {
+						endAlt(j)
+						altStart = j + 1
+					}
 				case '[':
 					bracketInGroup = true
+					brackets = append(brackets, j)
 				}
 				j++
 			}
 			if depth > 0 {
 				unclosedExt = true
+			} else {
+				// j-1 is the ")" this package takes as the end of the group.
+				// In bash a bracket expression binds tighter: one that opens
+				// inside the group and is unterminated, or closes only after
+				// that ")", swallows it.
+				for _, b := range brackets {
+					if cl := c17BracketClose(rs, b); cl < 0 || cl > j-1 {
+						bracketSwallowsParen = true
+					}
+				}
+				if emptyAlt && i > 0 && rs[i-1] == '*' && (i < 2 || rs[i-2] != '\\') {
+					starThenEmptyAlt = true
+				}
 			}
 		}
 	}
@@ -399,11 +433,37 @@ func c17Class(p string, mode pattern.Mode, all []string, sh, bash []bool) string
 		if unclosedExt {
 			return "unterminated-extglob-group"
 		}
-		if bracketInGroup && !strings.Contains(p, "]") {
+		if bracketInGroup && (!strings.Contains(p, "]") || bracketSwallowsParen) {
 			return "unterminated-bracket-inside-extglob-group"
 		}
 		if emptyGroup {
 			return "empty-extglob-group"
+		}
+		if plainParenInGroup {
+			return "plain-parens-nested-in-extglob-group"
+		}
+		if starThenEmptyAlt {
+			// bash 5.2 never takes the empty match of the group after "*"
+			onlyShMatches := true
+			for k := range all {
+				if bash[k] && !sh[k] {
+					onlyShMatches = false
+				}
+			}
+			if onlyShMatches {
+				return "star-then-group-matching-empty"
+			}
+		}
+	}
+	if mode&pattern.NoGlobCase != 0 && c17RangeWithNonLetterEnd(rs) {
+		onlyLetterSubjects := true
+		for k := range all {
+			if sh[k] != bash[k] && !strings.ContainsFunc(all[k], func(r rune) bool { return r >= 'a' && r <= 'z' || r >= 'A' && r <= 'Z' }) {
+				onlyLetterSubjects = false
+			}
+		}
+		if onlyLetterSubjects {
+			return "nocase-range-with-non-letter-endpoint"
 		}
 	}
 	// an unterminated bracket expression that ends in "x-": bash matches nothing
@@ -440,4 +500,66 @@ func c17Class(p string, mode pattern.Mode, all []string, sh, bash []bool) string
 		}
 	}
 	return ""
+}
+
+// c17BracketClose returns the index of the "]" closing the bracket expression
+// that opens at rs[open] under the POSIX rule (a "]" directly after "[", "[!"
+// or "[^" is an ordinary member), or -1 when there is none.
+func c17BracketClose(rs []rune, open int) int {
+	j := open + 1
+	if j < len(rs) && (rs[j] == '!' || rs[j] == '^') {
+		j++
+	}
+	if j < len(rs) && rs[j] == ']' {
+		j++
+	}
+	for ; j < len(rs); j++ {
+		switch rs[j] {
+		case '\\':
+			j++
+		case ']':
+			return j
+		}
+	}
+	return -1
+}
+
+// c17RangeWithNonLetterEnd: some terminated bracket expression holds a range
+// lo-hi that contains an ASCII letter while lo or hi is not a letter (for
+// example [*-a] or [(-[]). With nocasematch bash folds the subject character
+// and the range ends and compares those; this package matches if any case
+// variant of the character lies in the range.
+func c17RangeWithNonLetterEnd(rs []rune) bool {
+	isLetter := func(r rune) bool { return r >= 'a' && r <= 'z' || r >= 'A' && r <= 'Z' }
+	for i := 0; i < len(rs); i++ {
+		if rs[i] == '\\' {
+			i++
+			continue
+		}
+		if rs[i] != '[' {
+			continue
+		}
+		cl := c17BracketClose(rs, i)
+		if cl < 0 {
+			continue
+		}
+		j := i + 1
+		if rs[j] == '!' || rs[j] == '^' {
+			j++
+		}
+		for ; j+2 < cl; j++ {
+			lo, hi := rs[j], rs[j+2]
+			if rs[j+1] != '-' || lo == '\\' || hi == '\\' || lo > hi {
+				continue
+			}
+			if isLetter(lo) && isLetter(hi) {
+				continue
+			}
+			if lo <= 'z' && hi >= 'A' && !(lo > 'Z' && hi < 'a') {
+				return true
+			}
+		}
+		i = cl
+	}
+	return false
 }
